@@ -407,11 +407,15 @@ impl PacketReceiver {
                     let window_delta = packet_id::sub(sequence_id, new_base_id);
 
                     if window_parent_lead == 0 || window_parent_lead > window_delta {
+                        // Window advancement implies that this packet has been delivered. A sender
+                        // whose parent leads are inconsistent (the window parent permits advancement
+                        // while the channel parent still holds the packet back) must not make the
+                        // window pass over an undelivered packet.
+                        if self.data_flags[flags_index] & flag_bit != 0 {
+                            break;
+                        }
                         // println!("Forget sequence ID {}", sequence_id);
                         new_base_id = next_id;
-                        // Window advancement implies that this packet has been delivered
-                        debug_assert!(self.data_flags[flags_index] & flag_bit == 0);
-                        debug_assert!(self.data_entries[window_idx].data.is_none());
                     } else {
                         // Cease to consider advancing the window
                         break;
